@@ -284,7 +284,7 @@ def slots_in(v, out=None, depth: int = 0) -> list:
     """every SlotP (render call) reachable inside a value"""
     if out is None:
         out = []
-    if depth > 12:
+    if depth > 80:
         return out
     if isinstance(v, SlotP):
         out.append(v)
@@ -303,7 +303,7 @@ def slots_in(v, out=None, depth: int = 0) -> list:
 
 def map_slots(v, mp: dict, depth: int = 0):
     """rebuild a value with the evaluation index of its render calls renumbered through mp"""
-    if depth > 14:
+    if depth > 80:
         return v
     if isinstance(v, SlotP):
         return dc_replace(v, idx=mp.get(v.idx, v.idx))
@@ -401,6 +401,12 @@ def concat(a: Str, b: Str) -> Str:
     return Str(pa + pb)
 
 
+def _is_default_ctx_field(v, k: str) -> bool:
+    """`<something>.SQL_CONTEXT.<k>`: the field of a default context record that is only known at run time"""
+    return (isinstance(v, Sym) and v.kind == "attr" and v.args[1] == k and isinstance(v.args[0], Sym)
+            and v.args[0].kind == "attr" and v.args[0].args[1] == "SQL_CONTEXT")
+
+
 def s_alt(cond, a: Str, b: Str) -> Str:
     if a == b:
         return a
@@ -417,7 +423,20 @@ def s_alt(cond, a: Str, b: Str) -> Str:
         j += 1
     mid_a = Str(pa[i:len(pa) - j])
     mid_b = Str(pb[i:len(pb) - j])
-    return Str(pa[:i] + (Alt(cond, mid_a, mid_b),) + (pa[len(pa) - j:] if j else ()))
+    pre, suf = pa[:i], (pa[len(pa) - j:] if j else ())
+    # the shared parts were evaluated once per alternative (two calls of the same helper): as one text they stand before /
+    # after both alternatives, so their render calls take the earlier (prefix) resp. later (suffix) evaluation index
+    if i:
+        sa_, sb_ = slots_in(pre), slots_in(pb[:i])
+        if len(sa_) == len(sb_) and any(x.idx != y.idx for x, y in zip(sa_, sb_)):
+            mp = {x.idx: min(x.idx, y.idx) for x, y in zip(sa_, sb_)}
+            pre = map_slots(pre, mp)
+    if j:
+        sa_, sb_ = slots_in(suf), slots_in(pb[len(pb) - j:])
+        if len(sa_) == len(sb_) and any(x.idx != y.idx for x, y in zip(sa_, sb_)):
+            mp = {x.idx: max(x.idx, y.idx) for x, y in zip(sa_, sb_)}
+            suf = map_slots(suf, mp)
+    return Str(pre + (Alt(cond, mid_a, mid_b),) + suf)
 
 
 def negate(c):
@@ -633,6 +652,14 @@ class Evaluator:
         """fold terminated paths (in order) into one value"""
         if not done:
             return Const(None)
+        vals = [d for d in done if not isinstance(d[1], RaiseV)]
+        if len(vals) < len(done) and vals and all(isinstance(d[1], (ListV, DictV, CtxV)) for d in vals):
+            # a helper handing back a container (fragment list, context) on every path that returns: the raising
+            # paths hand back nothing, the caller goes on with the container (the raise is kept as a note)
+            for c_, r_ in done:
+                if isinstance(r_, RaiseV):
+                    self.notes.append(("raise", (r_.func, 0, "", (r_.func,)), f"{r_.exc} at {r_.loc}"))
+            done = vals
         result = done[-1][1]
         for cond, val in reversed(done[:-1]):
             result = self.merge(cond, val, result)
@@ -701,9 +728,9 @@ class Evaluator:
             fa, fb = a.fields[k], b.fields[k]
             if fa == fb:
                 fields[k] = fa
-            elif none_test is True and fb == Inh(k) and isinstance(fa, (Const, EnumV)):
+            elif none_test is True and fb == Inh(k) and (isinstance(fa, (Const, EnumV)) or _is_default_ctx_field(fa, k)):
                 fields[k] = InhOr(k, fa)
-            elif none_test is False and fa == Inh(k) and isinstance(fb, (Const, EnumV)):
+            elif none_test is False and fa == Inh(k) and (isinstance(fb, (Const, EnumV)) or _is_default_ctx_field(fb, k)):
                 fields[k] = InhOr(k, fb)
             else:
                 fields[k] = Phi(cond, fa, fb)
@@ -774,9 +801,19 @@ class Evaluator:
             self.exec_if(st, fr)
         elif isinstance(st, ast.For):
             self.exec_for(st, fr)
-        elif isinstance(st, (ast.Pass, ast.Import)):
+        elif isinstance(st, ast.While):
+            self.exec_while(st, fr)
+        elif isinstance(st, ast.Pass):
+            return
+        elif isinstance(st, ast.Import):
+            # function-local `import copy`: the name is bound in the frame
+            for al in st.names:
+                fr.env[al.asname or al.name.split(".")[0]] = Sym("extern", (al.name if al.asname else al.name.split(".")[0],))
             return
         elif isinstance(st, ast.ImportFrom):
+            for al in st.names:
+                if st.module and not st.level and f"{st.module}.{al.name}" in ("typing.cast", "copy.copy", "copy.deepcopy", "functools.reduce"):
+                    fr.env[al.asname or al.name] = Builtin(al.name)
             return
         elif isinstance(st, ast.Break):
             fr.breaks.append((list(fr.live_cond), dict(fr.env)))
@@ -796,6 +833,9 @@ class Evaluator:
         if isinstance(e, ast.Call) and isinstance(e.func, ast.Attribute) and isinstance(e.func.value, ast.Name):
             name = e.func.value.id
             cur = fr.env.get(name)
+            if isinstance(cur, ListV) and e.func.attr == "insert" and len(e.args) == 2 and isinstance(e.args[0], ast.Constant) and e.args[0].value == 0:
+                fr.env[name] = ListV((One(self.eval(e.args[1], fr)),) + cur.items, cur.kind)
+                return
             if isinstance(cur, ListV) and e.func.attr in ("append", "extend", "add"):
                 arg = self.eval(e.args[0], fr)
                 if e.func.attr == "extend":
@@ -834,6 +874,26 @@ class Evaluator:
                             self.eager.append((sp, f"value of the local `{t.id}`, overwritten before it is used", self.src(fr, st)))
             fr.env[t.id] = v
         elif isinstance(t, (ast.Tuple, ast.List)):
+            star = [i for i, e in enumerate(t.elts) if isinstance(e, ast.Starred)]
+            if len(star) == 1:
+                # `first, *rest = seq` / `for a, b, *more in rows`
+                k, n = star[0], len(t.elts)
+                v = self.consume_lazy(v)
+                concrete = isinstance(v, ListV) and all(isinstance(i, One) and i.cond is None for i in v.items) and len(v.items) >= n - 1
+                for i, e in enumerate(t.elts):
+                    if i < k:
+                        self.assign(e, v.items[i].value if concrete else self.item(v, Const(i)), fr, st)
+                    elif i == k:
+                        if concrete:
+                            rest = ListV(v.items[k:len(v.items) - (n - k - 1)], "list")
+                        elif isinstance(v, ListV) and all(isinstance(x, One) and x.cond is None for x in v.items[:k]) and n - k - 1 == 0:
+                            rest = ListV(v.items[k:], "list")      # a known head followed by a repetition: the tail keeps the repetition
+                        else:
+                            rest = Sym("rest", (v, k))
+                        self.assign(e.value, rest, fr, st)
+                    else:
+                        self.assign(e, v.items[len(v.items) - (n - i)].value if concrete else self.item(v, Const(i - n)), fr, st)
+                return
             for i, e in enumerate(t.elts):
                 self.assign(e, self.item(v, Const(i)), fr, st)
         elif isinstance(t, ast.Attribute) and getattr(self, "apply_writes", False):
@@ -952,13 +1012,29 @@ class Evaluator:
                     self.unsupported(st, fr, "break in unrolled loop")
                 self._rejoin_continues(fr, nc, lc_it)
             return
+        self._abstract_loop(st, fr, it)
+
+    def exec_while(self, st: ast.While, fr: Frame):
+        """`while <test>: body` -- an unknown number of iterations: the body is evaluated once for an arbitrary iteration,
+        text / list accumulators become repetitions, every other name the body rebinds holds an unknown value of that
+        iteration (`loopvar`) while the body runs and an unknown value (`loopval`) or the value before the loop afterwards"""
+        if st.orelse:
+            self.unsupported(st, fr, "while-else")
+        tv = self.truth(self.as_cond(self.eval(st.test, fr)))
+        if tv is False:
+            return
+        self.idx_while = getattr(self, "idx_while", 0) + 1
+        it = Sym("while", (ast.unparse(st.test), self.idx_while))
+        self._abstract_loop(st, fr, it, test=st.test)
+
+    def _abstract_loop(self, st, fr: Frame, it, test=None):
         # abstract iteration: body once, accumulators recognised
         stores = set()
         for n in ast.walk(st):
             if isinstance(n, ast.Name) and isinstance(n.ctx, ast.Store):
                 stores.add(n.id)
             if isinstance(n, ast.Call) and isinstance(n.func, ast.Attribute) and isinstance(n.func.value, ast.Name) \
-                    and n.func.attr in ("append", "extend", "add"):
+                    and n.func.attr in ("append", "extend", "add", "insert"):
                 stores.add(n.func.value.id)
         before = dict(fr.env)
         carry = {}
@@ -970,10 +1046,18 @@ class Evaluator:
             elif isinstance(cur, ListV):
                 carry[name] = "list"
                 fr.env[name] = ListV((One(Sym("carry", (name,))),), cur.kind)
-        self.assign(st.target, Sym("elem", (it,)), fr, st)
+            elif test is not None and cur is not None:
+                # a name the body of a while loop rebinds (`node = node.parent`): its value in an arbitrary iteration
+                fr.env[name] = Sym("loopvar", (name, cur, it))
+        if test is None:
+            self.assign(st.target, Sym("elem", (it,)), fr, st)
         done0 = len(fr.done)
         lc0 = list(fr.live_cond)
         fr.live_cond = lc0 + [Sym("in-loop", (it,))]
+        if test is not None:
+            tc = self.as_cond(self.eval(test, fr))
+            if not (isinstance(tc, Const) and tc.value is True):
+                fr.live_cond = fr.live_cond + [tc]
         fr.in_loop += 1
         nb = len(fr.breaks)
         nc = len(fr.continues)
@@ -1014,6 +1098,9 @@ class Evaluator:
                 if items and isinstance(items[0], One) and isinstance(items[0].value, Sym) and items[0].value.kind == "carry":
                     body = items[1:]
                     newenv[name] = ListV(before[name].items + ((RepI(body, it, broke),) if body else ()), before[name].kind)
+                elif items and isinstance(items[-1], One) and isinstance(items[-1].value, Sym) and items[-1].value.kind == "carry":
+                    body = items[:-1]      # built by insert(0, ...): the repetition precedes what was there
+                    newenv[name] = ListV(((RepI(body, it, broke),) if body else ()) + before[name].items, before[name].kind)
                 else:
                     newenv[name] = Sym("loopval", (name,))
             elif name in after and (name not in before or after[name] is not before.get(name)):
@@ -1077,6 +1164,8 @@ class Evaluator:
         return self.getattr(base, e.attr, fr, e)
 
     def getattr(self, base, name: str, fr, node=None):
+        if isinstance(base, Sym) and base.kind == "extern" and f"{base.args[0]}.{name}" in ("typing.cast", "copy.copy", "copy.deepcopy", "functools.reduce"):
+            return Builtin(name)
         if isinstance(base, CtxV):
             if name in base.fields:
                 return base.fields[name]
@@ -1263,6 +1352,9 @@ class Evaluator:
             a, b = vals
             if isinstance(a, CtxV) and a.maybe_none and isinstance(b, CtxV):
                 return self.merge_ctx(Sym("ctx-present", ()), a.with_(), b)
+            if isinstance(a, CtxV) and a.maybe_none and isinstance(b, Sym) and b.kind == "attr" and b.args[1] == "SQL_CONTEXT":
+                # `ctx or <query class held in an attribute>.SQL_CONTEXT`: a default context whose record is not known here
+                return self.merge_ctx(Sym("ctx-present", ()), a.with_(), CtxV({k: Sym("attr", (b, k)) for k in CTX_FIELDS}, False, "default-of-unknown-class"))
             r = self._or2(a, b)
             if r is not None:
                 return r
@@ -1595,6 +1687,12 @@ class Evaluator:
                 if sf is not None:
                     return self.call_function(sf, a0.cls, a0, [], {}, self.src(fr, e))
             return Str((Hole(a0, "str", self.src(fr, e)),))
+        if name in ("copy", "deepcopy") and len(args) == 1:
+            # a duplicate renders like its original; a concrete object is cloned so that stores to the clone stay on it
+            if isinstance(a0, Obj) and not a0.root:
+                return Obj(a0.cls, dict(a0.attrs), a0.name)
+            if isinstance(a0, (ListV, DictV, CtxV, Sym, Phi, Const)):
+                return a0
         if name == "cast" and len(args) == 2:
             return args[1]
         if name == "len":
@@ -1780,6 +1878,9 @@ class Evaluator:
         return Sym("op", ("isinstance", v, spec))
 
     def call_attr(self, base, m: str, e: ast.Call, fr: Frame):
+        if isinstance(base, Sym) and base.kind == "extern" and f"{base.args[0]}.{m}" in ("typing.cast", "copy.copy", "copy.deepcopy"):
+            args, kwargs = self.eval_args(e, fr)
+            return self.call_builtin(m, args, kwargs, e, fr)
         if isinstance(base, Phi) and m in ("get", "pop", "setdefault") and not isinstance(base.a, CtxV):
             return self._call_attr(base, m, e, fr)
         if isinstance(base, Phi) and not isinstance(base.a, CtxV) and (
